@@ -37,6 +37,7 @@ var goTypes = map[string]reflect.Type{
 	"[]string": reflect.TypeOf([]string(nil)), "map[string]int64": reflect.TypeOf(map[string]int64(nil)),
 	"Payload": reflect.TypeOf(Payload{}), "*Payload": reflect.TypeOf((*Payload)(nil)), "map[string]string": reflect.TypeOf(map[string]string(nil)),
 	"Dims": reflect.TypeOf(Dims{}), "Author": reflect.TypeOf(Author{}), "*Author": reflect.TypeOf((*Author)(nil)), "Deep": reflect.TypeOf(Deep{}),
+	"Flags": reflect.TypeOf(Flags{}), "*Flags": reflect.TypeOf((*Flags)(nil)),
 	"Addr": reflect.TypeOf(Addr{}), "*Addr": reflect.TypeOf((*Addr)(nil)),
 }
 
@@ -75,10 +76,14 @@ var fieldPool = []struct {
 	{"Level", []string{""}}, {"Tag", []string{""}}, {"Cents", []string{""}}, {"*Tag", []string{""}},
 	{"[]string", []string{"serializer:json"}}, {"map[string]int64", []string{"serializer:json"}}, {"Payload", []string{"serializer:json", "serializer:gob"}},
 	{"*Payload", []string{"serializer:json"}}, {"map[string]string", []string{"serializer:gob"}},
-	{"Dims", []string{"embedded;embeddedPrefix:{c}_"}}, {"Author", []string{"embedded;embeddedPrefix:{c}_"}},
+	{"Dims", []string{"embedded;embeddedPrefix:{c}_"}}, {"*Flags", []string{"embedded;embeddedPrefix:{c}_"}},
+	{"*Flags", []string{"embedded;embeddedPrefix:{c}_"}}, {"Flags", []string{"embedded;embeddedPrefix:{c}_"}},
+	{"int", []string{"serializer:json"}}, {"float64", []string{"serializer:json"}}, {"*int64", []string{"serializer:json"}}, {"Author", []string{"embedded;embeddedPrefix:{c}_"}},
 	{"*Author", []string{"embedded;embeddedPrefix:{c}_"}}, {"Deep", []string{"embedded;embeddedPrefix:{c}_"}},
 	{"Addr", []string{"embedded;embeddedPrefix:{c}_"}}, {"Addr", []string{"embedded;embeddedPrefix:{c}_"}}, {"*Addr", []string{"embedded;embeddedPrefix:{c}_"}},
-	{"Dims", []string{"embedded;embeddedPrefix:{c}_"}},
+	{"Dims", []string{"embedded;embeddedPrefix:{c}_"}}, {"*Flags", []string{"embedded;embeddedPrefix:{c}_"}},
+	{"*Flags", []string{"embedded;embeddedPrefix:{c}_"}}, {"Flags", []string{"embedded;embeddedPrefix:{c}_"}},
+	{"int", []string{"serializer:json"}}, {"float64", []string{"serializer:json"}}, {"*int64", []string{"serializer:json"}},
 }
 
 // genSpec draws a struct type: a key, the marker column, 3..12 further fields.
